@@ -45,6 +45,21 @@ CHECKS = {
     'C14': ('model-based PBT of stream framing: generated message sequences x chunkings x handshake leftovers through a scripted socket',
             'Exploration over inputs and read schedules: messages come out byte-identical, in order, with their own fds and increasing positions; >128 MiB headers fail without a body-sized read.',
             'Trusted: scripted socket models a unix stream socket: a recvmsg never merges data across an fd-carrying message start.', '7/C14'),
+    'C15': ('concurrency stress PBT with a cfg-guarded hook placing the serial counter at the wrap-around',
+            'Exploration (schedules are the OS scheduler\'s): 2..16 threads build messages concurrently from generated counter positions incl. across the 32-bit wrap; no zero, no repeat, per-thread progress.',
+            'Trusted: the hook only stores the counter. The interleaving cannot be owned by the harness (std atomics inside zbus), so this is stress exploration on 16 cores.', '7/C15'),
+    'C21': ('differential PBT: MatchRule::matches vs the specification\'s semantics on rule-derived near-miss messages',
+            'Exploration: rules over all keys x messages derived from the rule and perturbed in 0..2 aspects (prefix/sibling paths, trailing-slash arguments, other argument types, namespace boundaries, absent fields); verdicts must agree except for the two documented unresolvable-name cases.',
+            'Trusted: refmodel::matchrule (written from the specification, with its own examples as unit tests); messages come from the reference builder. First arguments that are strings but not bus names are skipped for arg0namespace.', '7/C21'),
+    'C22': ('round-trip + differential PBT: rule printer/parser vs a specification-conformant tokenizer',
+            'Exploration: rules with special characters in argument values; to_string() must be read back as an equal rule by a conformant parser and by zbus, zbus must read the conformant print, and parse.print.parse is stable.',
+            'Trusted: refmodel::matchrule tokenizer (quoting rules of the reference bus implementation).', '7/C22'),
+    'C23': ('round-trip PBT over Address values + differential PBT of address strings against the specification\'s percent codec',
+            'Exploration: parse(format(a)) == a over all Linux transports with arbitrary byte values, and every value zbus holds after parsing a grammar-generated string equals the percent-decoded value.',
+            'Trusted: refmodel::addr. vsock transports are feature-gated and not built here.', '7/C23'),
+    'C34': ('round-trip PBT: generated introspection trees -> XML text -> model -> XML -> model',
+            'Exploration: accessors of the parsed model equal the generated tree (independent writer with correct escaping, element kinds interleaved as the DTD allows) and write->read yields an equal value.',
+            'Trusted: the harness\'s own XML writer/escaper.', '7/C34'),
 }
 
 NOT_YET = {}
